@@ -218,6 +218,12 @@ func init() {
 	// --- runtime -----------------------------------------------------------------
 	// package initialisers that parse embedded data with code outside the engine's reach and do not
 	// influence any checked behaviour (vendored RSA keys: PEM/x509 parsing)
+	// PEM/x509 parsing of vendored public keys (package initialisers of mtproto, telegram, dcs):
+	// outside the engine's reach and irrelevant to every checked behaviour; yields no keys.
+	externals["github.com/gotd/td/crypto.ParseRSAPublicKeys"] = func(fr *frame, args []value) value {
+		return tuple{[]value(nil), iface{}}
+	}
+	externals["github.com/gotd/td/telegram/dcs.init#1"] = func(fr *frame, args []value) value { return nil }
 	externals["github.com/gotd/td/mtproto.init#1"] = func(fr *frame, args []value) value { return nil }
 	externals["github.com/gotd/td/telegram.init#1"] = func(fr *frame, args []value) value { return nil }
 	externals["crypto/internal/constanttime.boolToUint8"] = func(fr *frame, args []value) value {
